@@ -27,7 +27,8 @@ FORMATS = ["auto", "full", "minimal", "minimal_soln_cat"]
 THRESHOLDS = {"quick": {**{f"c05:{f}:{c}": 30 for f in FORMATS for c in ("memory", "file")}, "c05:collections": 40,
                         "c05:collection-empty-member": 10, "c05:no-meta-at-all": 30, "c05:precollected": 30, "c05:with-meta": 100,
                         "c05:len>=100": 8, "c05:one-cell-solution": 30, "c05:two-cell-solution": 30, "c05:meta-keys-compared": 100,
-                        "c05:auto-picked-minimal": 20, "c05:auto-picked-full": 20}}
+                        "c05:auto-picked-minimal": 20, "c05:auto-picked-full": 20,
+                        "c05:solution>127-cells": 20, "c05:solution>255-cells": 3}}
 THRESHOLDS["thorough"] = dict(THRESHOLDS["quick"])
 ANCHORS = ["maze_dataset.dataset.maze_dataset:MazeDataset.serialize", "maze_dataset.dataset.maze_dataset:MazeDataset.load",
            "maze_dataset.dataset.maze_dataset:MazeDataset._load_full", "maze_dataset.dataset.maze_dataset:MazeDataset._load_minimal",
@@ -119,6 +120,10 @@ def build_dataset(ctx, rng, j):
         n = 100 if j % 46 == 0 else 101
         g = int(rng.integers(2, 6))
     kind = j % 4
+    if j % 16 == 7:
+        kind = 3
+        g = int(rng.integers(12, 18))  # long corridors: solutions of > 127 and > 255 cells (storage dtypes of the minimal formats)
+        n = int(rng.integers(2, 5))
     with warnings.catch_warnings():
         warnings.simplefilter("ignore")
         if kind in (0, 1, 2):
@@ -140,7 +145,7 @@ def build_dataset(ctx, rng, j):
             # harness-built mazes: ragged solutions incl. one-cell, two-cell and maximal paths, no generation metadata
             mazes = []
             for t in range(n):
-                fam = ["tree", "cyc3", "perc6", "serpentine"][t % 4]
+                fam = ["tree", "cyc3", "perc6", "serpentine"][t % 4] if g < 12 else ["serpentine", "tree"][t % 2]
                 _, cl = ref.random_structure(g, g, rng, fam)
                 gr = Graph(cl)
                 cells = ref.all_cells(g, g)
@@ -152,6 +157,10 @@ def build_dataset(ctx, rng, j):
                     e = gr.adj[s][0]; tags.append("two-cell-solution")
                 elif fam == "serpentine":
                     s, e = (0, 0), ((g - 1), (g - 1) if g % 2 else 0)
+                    if g >= 12:
+                        tags.append("solution>127-cells")
+                    if g >= 17:
+                        tags.append("solution>255-cells")
                 else:
                     e = comp[int(rng.integers(len(comp)))]
                 mazes.append(lib.solved(cl, gr.shortest_path(s, e, rng)))
